@@ -789,6 +789,29 @@ func bits(t *rapid.T, n int) *big.Int {
 	return x
 }
 
+// Deeply nested messages (a chain of sub-messages 50-400 levels deep carrying boundary values in its leaf) survive
+// marshal/unmarshal in binary and text form like any other message.
+func TestPropDeepChains(t *testing.T) {
+	vk.S.SetExhaustive("sub-message-chains-50-400-deep-round-trip", true)
+	vk.Enum(t, subLossless, func(yield func(Case) bool) {
+		i := 0
+		for _, depth := range []int{50, 99, 100, 101, 150, 400} {
+			i++
+			if !vk.Mine(i) {
+				continue
+			}
+			v := vDict(vStr("i"), vInt("-2147483648"), vStr("u"), vInt("18446744073709551615"), vStr("s"), vStr("leaf"))
+			for d := 0; d < depth; d++ {
+				v = vDict(vStr("i"), vI(int64(d)), vStr("sub"), v)
+			}
+			c := Case{Kind: "deep-chain", Pos: fmt.Sprint(depth), Ops: []Op{{Op: "new", V: pv(v)}, {Op: "rt"}, {Op: "rt", Star: true}}}
+			if !yield(c) {
+				return
+			}
+		}
+	})
+}
+
 func TestPropLossless(t *testing.T) {
 	str := rapid.StringN(0, 12, 40)
 	byt := rapid.SliceOfN(rapid.Byte(), 0, 12)
